@@ -1136,9 +1136,11 @@ def run_metric_case(ctx, idx, kind, sid, comp):
     count_dtype0 = metric.count.value.dtype if hasattr(metric, 'count') else None
     metric.reset()
     ctx.op('metric.reset')
-    if count_dtype0 is not None and metric.count.value.dtype != count_dtype0:
-      # observation, not a verdict: the property speaks about the reported result, which is checked next
-      ctx.event('note.reset_changes_count_dtype:%s->%s' % (count_dtype0, metric.count.value.dtype))
+    if count_dtype0 is not None:
+      # the state after reset has the types of a fresh metric (a metric that is reset inside nnx.cond / a scan carry, or under
+      # nnx.jit, must not change the avals of its state)
+      ctx.check(metric.count.value.dtype == count_dtype0, 'metric.reset:state_dtype_changed',
+                lambda: dict(kind=kind, before=str(count_dtype0), after=str(metric.count.value.dtype)))
     after = extract(kind, metric.compute())
     ctx.check(same_result(after, initial), 'metric.reset', lambda: dict(kind=kind, after={k: repr(v) for k, v in after.items()},
                                                                           initial={k: repr(v) for k, v in initial.items()}))
